@@ -125,7 +125,10 @@ def make_invariant(data):
             wf = wellformed(r, {d.idx for d in t.data})
             if wf:
                 return ["restored tree (%s) malformed: %s" % (w, wf[0])]
-            d = obs_diff(o, observable(r))
+            # graph positions are an implementation detail the dictionary form does not promise (a restore may renumber
+            # them densely); what must survive is labels, shape, data, last-edited clone, likelihoods, densities - and the
+            # restored tree's own name<->position maps must be consistent, which wellformed() above has checked
+            d = obs_diff(observable(t, True, False), observable(r, True, False))
             if d:
                 return ["restore via %s: %s" % (w, d)]
             restored[w] = r
@@ -147,7 +150,7 @@ def make_invariant(data):
             except Exception as e:
                 return ["in-place subtree extraction raised %s: %s" % (type(e).__name__, e)]
             try:
-                d = obs_diff(o, observable(_from_dict(snap)))
+                d = obs_diff(observable(t, True, False), observable(_from_dict(snap), True, False))
             except Exception as e:
                 return ["a dictionary taken before an in-place edit no longer restores: %s: %s" % (type(e).__name__, e)]
             if d:
